@@ -1,50 +1,70 @@
 (* C03 — evaluation-mode outputs are history independent (no stale prediction caches).
    Statement file: theorems, [exact lemma], Print Assumptions.  Nothing else.
-   Machine: Models/C03_cache.v ([step] with every invalidation point of the code = [all_on]). *)
+   Machine: Models/C03_cache.v ([step] with every invalidation point of the code = [all_on],
+   including the staleness guards for settings no memo key records and the exception-safe
+   get_fantasy_model).  Configurations 0..3 of every family include the settings-changing ones
+   (sgpr_diagonal_correction(False), variational_cholesky_jitter(1e-3)): no hypothesis restricts
+   the settings used along a history. *)
 From Coq Require Import Arith List Bool.
 From GPV Require Import Models.C03_cache Proofs.C03_cache.
 Import ListNotations.
 
-(* Inv: every entry sits in a slot some _clear_cache owns and, while training = false, carries the
-   current (parameter, data) versions under keyed settings.  Holds initially, is preserved by every
-   admissible operation, hence holds in every reachable state — for every family descriptor
+(* Inv: the object holds its data; every entry sits in a slot some _clear_cache owns and, while
+   training = false, carries the current (parameter, data) versions and - for the slots whose
+   content depends on an unkeyed setting - the settings value the staleness guard has recorded.
+   Holds initially, is preserved by every admissible operation (Step only in training mode;
+   configuration in range), hence holds in every reachable state - for every family descriptor
    passing the decidable check wf_family, for histories of ANY length. *)
 Theorem c03_valid_caches_invariant :
   forall fam, wf_family fam = true ->
     Inv fam init /\
-    (forall s o, Inv fam s -> op_ok fam s o = true -> op_keyed fam o = true ->
-                 Inv fam (fst (step all_on fam s o))) /\
-    (forall h, admissible all_on fam init h = true -> keyed_history fam h = true ->
-               Inv fam (run all_on fam init h)).
-Proof.
-  intros fam H. split; [exact (Inv_init fam)|]. split; [exact (Inv_step fam H)|].
-  intros h. exact (Inv_run fam H h init (Inv_init fam)).
-Qed.
+    (forall s o, Inv fam s -> op_ok fam s o = true -> Inv fam (fst (step all_on fam s o))) /\
+    (forall h, admissible all_on fam init h = true -> Inv fam (run all_on fam init h)).
+Proof. exact valid_caches_invariant. Qed.
 Print Assumptions c03_valid_caches_invariant.
 
-(* after ANY admissible history the next eval-mode prediction consults exactly what a freshly
-   constructed object holding the same parameters and data consults *)
+(* from ANY valid eval-mode state a prediction is a function of the current versions and the
+   configuration alone *)
+Theorem c03_prediction_determined :
+  forall fam s c, wf_family fam = true -> Inv fam s -> training s = false -> c < f_ncfg fam ->
+    predict_out all_on fam s c =
+      (ST_OK, map (fun u => (u_key u, cur_tag fam (pv s) (dv s) (f_ck fam c) (u_slot u))) (f_uses fam c)).
+Proof. intros fam s c H. exact (predict_out_eval fam H s c). Qed.
+Print Assumptions c03_prediction_determined.
+
+(* after ANY admissible history - predictions under any of the configurations (settings-changing
+   ones included), train()/eval(), optimiser steps in training mode, set_train_data,
+   load_state_dict, fantasy models, prior-mode calls, backward through non-detached predictions -
+   the next eval-mode prediction consults exactly what a freshly constructed object holding the
+   same parameters and data consults *)
 Theorem c03_history_independence :
   forall fam h c, wf_family fam = true ->
-    admissible all_on fam init h = true -> keyed_history fam h = true ->
-    c < f_ncfg fam -> cfg_keyed fam c = true ->
+    admissible all_on fam init h = true ->
+    c < f_ncfg fam ->
     training (run all_on fam init h) = false ->
     predict_out all_on fam (run all_on fam init h) c =
     predict_out all_on fam (fresh (pv (run all_on fam init h)) (dv (run all_on fam init h)) false) c.
 Proof. intros fam h c H. exact (history_independence_gen fam H h c). Qed.
 Print Assumptions c03_history_independence.
 
-(* exact GP / default strategy and KISS-GP: every configuration is keyed, no side condition *)
+(* the same from any valid starting state (a freshly constructed object in either mode, or any
+   reachable state): the statement is about suffixes of histories as well *)
+Theorem c03_history_independence_from :
+  forall fam s h c, wf_family fam = true -> Inv fam s ->
+    admissible all_on fam s h = true -> c < f_ncfg fam ->
+    training (run all_on fam s h) = false ->
+    predict_out all_on fam (run all_on fam s h) c =
+    predict_out all_on fam (fresh (pv (run all_on fam s h)) (dv (run all_on fam s h)) false) c.
+Proof. intros fam s h c H. exact (history_independence_from fam H s h c). Qed.
+Print Assumptions c03_history_independence_from.
+
+(* the five concrete families, all four configurations each, no side condition *)
 Theorem c03_history_independence_exact :
   forall h c, admissible all_on fam_exact init h = true -> c < 4 ->
     training (run all_on fam_exact init h) = false ->
     predict_out all_on fam_exact (run all_on fam_exact init h) c =
     predict_out all_on fam_exact (fresh (pv (run all_on fam_exact init h)) (dv (run all_on fam_exact init h)) false) c.
-Proof.
-  intros h c Ha Hc Ht.
-  exact (history_independence_gen fam_exact wf_exact h c Ha (keyed_history_all _ h all_keyed_exact) Hc
-           (all_keyed_exact c) Ht).
-Qed.
+Proof. intros h c. exact (history_independence_gen fam_exact wf_exact h c). Qed.
 Print Assumptions c03_history_independence_exact.
 
 Theorem c03_history_independence_kiss :
@@ -52,58 +72,75 @@ Theorem c03_history_independence_kiss :
     training (run all_on fam_kiss init h) = false ->
     predict_out all_on fam_kiss (run all_on fam_kiss init h) c =
     predict_out all_on fam_kiss (fresh (pv (run all_on fam_kiss init h)) (dv (run all_on fam_kiss init h)) false) c.
-Proof.
-  intros h c Ha Hc Ht.
-  exact (history_independence_gen fam_kiss wf_kiss h c Ha (keyed_history_all _ h all_keyed_kiss) Hc
-           (all_keyed_kiss c) Ht).
-Qed.
+Proof. intros h c. exact (history_independence_gen fam_kiss wf_kiss h c). Qed.
 Print Assumptions c03_history_independence_kiss.
 
-(* SGPR and variational GPs: the full statement (all four configurations) is REFUTED by the
-   faithful model, because sgpr_diagonal_correction resp. variational_cholesky_jitter change cached
-   content without being part of a cache key; it holds on histories that keep those settings at
-   their default (hypotheses keyed_history / cfg_keyed). *)
-Theorem c03_history_independence_sgpr_partial :
-  forall h c, admissible all_on fam_sgpr init h = true -> keyed_history fam_sgpr h = true ->
-    c < 4 -> cfg_keyed fam_sgpr c = true -> training (run all_on fam_sgpr init h) = false ->
+(* SGPR: configuration 3 is sgpr_diagonal_correction(False); the strategy records the setting it
+   was built under and ExactGP.__call__ rebuilds a stale one *)
+Theorem c03_history_independence_sgpr :
+  forall h c, admissible all_on fam_sgpr init h = true -> c < 4 ->
+    training (run all_on fam_sgpr init h) = false ->
     predict_out all_on fam_sgpr (run all_on fam_sgpr init h) c =
     predict_out all_on fam_sgpr (fresh (pv (run all_on fam_sgpr init h)) (dv (run all_on fam_sgpr init h)) false) c.
 Proof. intros h c. exact (history_independence_gen fam_sgpr wf_sgpr h c). Qed.
-Print Assumptions c03_history_independence_sgpr_partial.
+Print Assumptions c03_history_independence_sgpr.
 
-Theorem c03_history_independence_sgpr_refuted :
-  exists h c, admissible all_on fam_sgpr init h = true /\ c < f_ncfg fam_sgpr /\
-    training (run all_on fam_sgpr init h) = false /\
-    predict_out all_on fam_sgpr (run all_on fam_sgpr init h) c <>
-    predict_out all_on fam_sgpr (fresh (pv (run all_on fam_sgpr init h)) (dv (run all_on fam_sgpr init h)) false) c.
-Proof. exact sgpr_unkeyed_refuted. Qed.
-Print Assumptions c03_history_independence_sgpr_refuted.
-
-Theorem c03_history_independence_variational_partial :
-  forall b h c, admissible all_on (fam_var b) init h = true -> keyed_history (fam_var b) h = true ->
-    c < 4 -> cfg_keyed (fam_var b) c = true -> training (run all_on (fam_var b) init h) = false ->
+(* variational GPs (with and without fantasy support): configuration 3 is
+   variational_cholesky_jitter(1e-3); __call__ clears the memo when the jitter differs from the
+   recorded one *)
+Theorem c03_history_independence_variational :
+  forall b h c, admissible all_on (fam_var b) init h = true -> c < 4 ->
+    training (run all_on (fam_var b) init h) = false ->
     predict_out all_on (fam_var b) (run all_on (fam_var b) init h) c =
     predict_out all_on (fam_var b)
       (fresh (pv (run all_on (fam_var b) init h)) (dv (run all_on (fam_var b) init h)) false) c.
 Proof. intros b h c. exact (history_independence_gen (fam_var b) (wf_var b) h c). Qed.
-Print Assumptions c03_history_independence_variational_partial.
+Print Assumptions c03_history_independence_variational.
 
-Theorem c03_history_independence_variational_refuted :
-  exists h c, admissible all_on (fam_var true) init h = true /\ c < f_ncfg (fam_var true) /\
-    training (run all_on (fam_var true) init h) = false /\
-    predict_out all_on (fam_var true) (run all_on (fam_var true) init h) c <>
-    predict_out all_on (fam_var true)
-      (fresh (pv (run all_on (fam_var true) init h)) (dv (run all_on (fam_var true) init h)) false) c.
-Proof. exact var_unkeyed_refuted. Qed.
-Print Assumptions c03_history_independence_variational_refuted.
+(* EVERY observable operation of every admissible history - posterior predictions in either mode,
+   prior-mode calls, non-detached predictions + backward - reports exactly what the freshly
+   constructed object holding the same versions (in the same mode) reports.  [indep] is the flag the
+   harness reads for every operation; [trace] lists it per operation.  Side conditions on the
+   family (decidable, met by the five concrete families): training-mode consultations are of
+   slots the training-mode call has just cleared, own their tag, and are pairwise distinct. *)
+Theorem c03_every_operation_independent :
+  forall fam s o, wf_family fam = true ->
+    forallb (train_use_ok fam) (f_train_uses fam) = true -> uses_nodup (f_train_uses fam) = true ->
+    Inv fam s -> op_ok fam s o = true -> indep all_on fam s o = true.
+Proof. intros fam s o H Ht Hn. exact (indep_always fam H Ht Hn s o). Qed.
+Print Assumptions c03_every_operation_independent.
+
+Theorem c03_trace_independent :
+  forall fam h, wf_family fam = true ->
+    forallb (train_use_ok fam) (f_train_uses fam) = true -> uses_nodup (f_train_uses fam) = true ->
+    admissible all_on fam init h = true ->
+    Forall (fun r => snd (fst r) = true) (trace all_on fam init h).
+Proof. intros fam h H Ht Hn. exact (trace_indep fam H Ht Hn h init (Inv_init fam)). Qed.
+Print Assumptions c03_trace_independent.
+
+(* under the real code no history makes the object lose its training data / likelihood
+   (get_fantasy_model restores them when the copy raises) *)
+Theorem c03_source_never_lost :
+  forall fam h, wf_family fam = true -> admissible all_on fam init h = true ->
+    lost (run all_on fam init h) = false.
+Proof. intros fam h H. exact (never_lost fam H h). Qed.
+Print Assumptions c03_source_never_lost.
 
 (* every invalidation point is necessary: the machine with that point removed has a short
    admissible history after which the prediction differs from the fresh object's
    (2 train(False) clears; 3 load_state_dict; 4 set_train_data; 6 variational __call__ in training
    mode; 7 kernel._clear_cache; 8 ExactGP._clear_cache; 9 _VariationalStrategy._clear_cache;
-   10 KISS-GP pair re-keying; 11 Module.train override deleted; 5 backward hook: observable is the
-   status of the next non-detached backward).  Point 1 (clearing on train(True)) alone is masked
-   by point 2 for predictions, which is why 11 removes both. *)
+   10 KISS-GP pair re-keying; 11 Module.train override deleted;
+   12 the staleness guards (= the code before the fixes "SGPR prediction strategy is rebuilt when
+   sgpr_diagonal_correction changes" / "variational strategy drops the cached Cholesky factor
+   when variational_cholesky_jitter changes"): Predict(default) then Predict(setting) or the
+   reverse, SGPR and variational;
+   13 get_fantasy_model without the finally block (before "get_fantasy_model restores the source
+   model when the copy raises"): KISS-GP, non-detached prediction + backward, then a fantasy
+   model -> the source predicts the prior;
+   5 backward hook: observable is the status of the next non-detached backward).
+   Point 1 (clearing on train(True)) alone is masked by point 2 for predictions, which is why 11
+   removes both. *)
 Theorem c03_dropped_invalidation_refutes :
   differs (points_without 2) (fam_var true) [OTrain; OStep; OEval] 0 = true /\
   differs (points_without 3) fam_exact [OPredict 0; OLoad] 0 = true /\
@@ -114,6 +151,11 @@ Theorem c03_dropped_invalidation_refutes :
   differs (points_without 9) (fam_var true) [OPredict 0; OLoad] 0 = true /\
   differs (points_without 10) fam_kiss [OPredict 1] 2 = true /\
   differs (points_without 11) fam_exact [OPredict 0; OTrain; OStep; OEval] 0 = true /\
+  differs (points_without 12) fam_sgpr [OPredict 0] 3 = true /\
+  differs (points_without 12) fam_sgpr [OPredict 3] 0 = true /\
+  differs (points_without 12) (fam_var true) [OPredict 0] 3 = true /\
+  differs (points_without 12) (fam_var false) [OPredict 3; OPrior] 1 = true /\
+  differs (points_without 13) fam_kiss [OBackward; OFantasy] 0 = true /\
   (bwd_status all_on fam_exact [OPredict 2; OBackward] = ST_OK /\
    bwd_status (points_without 5) fam_exact [OPredict 2; OBackward] = ST_ERR).
 Proof. exact dropped_refutes. Qed.
@@ -122,7 +164,7 @@ Print Assumptions c03_dropped_invalidation_refutes.
 (* what [differs ... = true] means *)
 Theorem c03_differs_meaning :
   forall pts fam h c, differs pts fam h c = true ->
-    admissible pts fam init h = true /\ keyed_history fam h = true /\ cfg_keyed fam c = true /\
+    admissible pts fam init h = true /\ c < f_ncfg fam /\
     predict_out pts fam (run pts fam init h) c <>
     predict_out pts fam (fresh (pv (run pts fam init h)) (dv (run pts fam init h))
                                (training (run pts fam init h))) c.
@@ -130,12 +172,25 @@ Proof. exact differs_sound. Qed.
 Print Assumptions c03_differs_meaning.
 
 (* non-vacuity: a 12-operation admissible history through every kind of operation, ending in
-   eval mode with versions (2, 1) and three live cache entries *)
+   eval mode with versions (2, 1) and three live cache entries; histories through the
+   settings-changing configurations of SGPR and a variational GP; all families well formed *)
 Example ex_c03_history :
   admissible all_on fam_exact init ex_hist = true /\ training (run all_on fam_exact init ex_hist) = false /\
   pv (run all_on fam_exact init ex_hist) = 2 /\ dv (run all_on fam_exact init ex_hist) = 1 /\
   length (cch (run all_on fam_exact init ex_hist)) = 3.
 Proof. exact ex_hist_ok. Qed.
+Example ex_c03_settings_history :
+  admissible all_on fam_sgpr init ex_hist_sgpr = true /\ training (run all_on fam_sgpr init ex_hist_sgpr) = false /\
+  sck (run all_on fam_sgpr init ex_hist_sgpr) = 0 /\ length (cch (run all_on fam_sgpr init ex_hist_sgpr)) = 4 /\
+  admissible all_on (fam_var true) init ex_hist_var = true /\
+  training (run all_on (fam_var true) init ex_hist_var) = false /\
+  sck (run all_on (fam_var true) init ex_hist_var) = 1 /\
+  length (cch (run all_on (fam_var true) init ex_hist_var)) = 2.
+Proof. exact ex_hist_settings_ok. Qed.
 Example ex_c03_wf : wf_family fam_exact = true /\ wf_family fam_kiss = true /\ wf_family fam_sgpr = true /\
                     wf_family (fam_var true) = true /\ wf_family (fam_var false) = true.
-Proof. repeat split; reflexivity. Qed.
+Proof. exact ex_wf_all. Qed.
+Example ex_c03_train_uses :
+  forall fam, In fam [fam_exact; fam_kiss; fam_sgpr; fam_var true; fam_var false] ->
+    forallb (train_use_ok fam) (f_train_uses fam) = true /\ uses_nodup (f_train_uses fam) = true.
+Proof. exact ex_train_uses_ok. Qed.
